@@ -89,7 +89,7 @@ package ons
 //@ repr domHas(self *DomainStore)[n string] = vHas(self.State)[str(self.prefix) + rev(n)]
 
 // name -> key is injective: concatenation can be cancelled on the left, reversal is an involution
-//@ axiom forall p string, a string, b string :: p + a == p + b ==> a == b                            // C20.key-injective
+//@ axiom forall p string, a string, b string :: p + rev(a) == p + rev(b) ==> rev(a) == rev(b)        // C20.key-injective
 //@ axiom forall s string :: unrev(rev(s)) == s                                                    // C20.key-injective
 
 //@ func (*DomainStore).DeleteASubdomain
@@ -102,19 +102,48 @@ package ons
 //@   ensures dom(ds) == old(dom(ds)) && domPrice(ds) == old(domPrice(ds))                                         // C20.delete-frame
 //@   ensures wfState(ds.State) && sessOpen(ds.State)                                                               // C09.wf
 
-// IterateSubDomain: assumed iterator (State.IterateRange over the key range "<prefix><reversed "."+parent>..." has no
-// contract in package storage). Every yield is a sub-name of parentName that is present, with a fresh copy of its record.
-// Nothing is assumed about completeness: the real enumeration walks only the keys of the committed tree
-// (storage/state.go IterateRange: "we can't get the key for anything that's only in the cache").
-//@ ghost func subIterCount(ds *DomainStore, p string) int
-//@ assume func (*DomainStore).IterateSubDomain
-//@   iterator
-//@   requires ds != nil
-//@   modifies nothing
-//@   count subIterCount(ds, parentName)
-//@   yields subOf(y0, parentName) && y0 != parentName && domHas(ds)[y0] && y1 != nil
-//@   yields y1.Owner == dom(ds)[y0].Owner && y1.Beneficiary == dom(ds)[y0].Beneficiary && y1.Name == y0 && dom(ds)[y0].Name == y0 && y1.CreationHeight == dom(ds)[y0].CreationHeight && y1.LastUpdateHeight == dom(ds)[y0].LastUpdateHeight && y1.ExpireHeight == dom(ds)[y0].ExpireHeight && y1.ActiveFlag == dom(ds)[y0].ActiveFlag && y1.OnSaleFlag == dom(ds)[y0].OnSaleFlag && y1.URI == dom(ds)[y0].URI
-//@   yields (y1.SalePrice == nil) == (dom(ds)[y0].SalePrice == nil) && (y1.SalePrice != nil ==> big(y1.SalePrice) == domPrice(ds)[y0])
+// ---------------------------------------------------------------- scans
+//
+// IterateSubDomain is VERIFIED on its body (not assumed): it is a prefix scan — State.IterateRange from
+// start = prefix + reversed("." + parentName) to Rangefix of the SAME start (C09.prefix-scan at the call) —, it stops early
+// only when fn asks for it (a record that does not decode is skipped and must not cut the others off: iter-stop), and every
+// element handed to fn satisfies the yields below. Completeness is NOT claimed: the scan walks committed keys only
+// (storage/state.go IterateRange: "we can't get the key for anything that's only in the cache"), see C20.subs-deleted.
+//
+// What the yields rest on, all explicit:
+//  * C20.key-decoding (axiom, pure string fact): a key k visited by the scan that starts at pre + rev("." + p) is the store key
+//    of the name n = rev(k[len(pre):]), and n is a proper sub-name of p (n ends in "." + p);
+//  * A-TOMB (axiom): the tombstone marker does not decode as a Domain (it is not JSON), so a deleted key is skipped;
+//  * A-VIEW (assumes viewOK(ds)): the typed view, the same trust the assumed Get carries — a present key whose bytes decode holds
+//    the record the ghost ledger has for that name (T-SER round trip of Set's bytes);
+//  * A-GAS (assumes): the block gas store is not exhausted (after exhaustion State.Get serves stale values: C09 finding D-09b;
+//    the assumed Get makes the same simplification).
+//@ ghost func subStart(pre string, p string) string = pre + rev("." + p)
+//@ ghost func keyName(pre string, k string) string = rev(@str_sub(k, len(pre), len(k)))
+//@ axiom forall pre string, k string, p string :: { scanKey(k, subStart(pre, p)) } scanKey(k, subStart(pre, p)) ==> pre + rev(keyName(pre, k)) == k && subOf(keyName(pre, k), p) && keyName(pre, k) != p      // C20.key-decoding
+//@ axiom !deserok(bytes("⛼"), "Domain")                                                                           // A-TOMB
+// recEq(a, b): a decoded record equals a ledger record (the SalePrice pointer compared by nil-ness; its value is domPrice)
+//@ ghost func recEq(a Domain, b Domain) bool = a.Owner == b.Owner && a.Beneficiary == b.Beneficiary && a.Name == b.Name && a.CreationHeight == b.CreationHeight && a.LastUpdateHeight == b.LastUpdateHeight && a.ExpireHeight == b.ExpireHeight && a.ActiveFlag == b.ActiveFlag && a.OnSaleFlag == b.OnSaleFlag && a.URI == b.URI && (a.SalePrice == nil) == (b.SalePrice == nil)
+//@ ghost func viewOK(ds *DomainStore) bool = forall n string :: { vVal(ds.State)[str(ds.prefix) + rev(n)] } vHas(ds.State)[str(ds.prefix) + rev(n)] && deserok(vVal(ds.State)[str(ds.prefix) + rev(n)], "Domain") ==> recEq(deser(vVal(ds.State)[str(ds.prefix) + rev(n)], "Domain"), dom(ds)[n]) && dom(ds)[n].Name == n && (deser(vVal(ds.State)[str(ds.prefix) + rev(n)], "Domain").SalePrice != nil ==> allocated(deser(vVal(ds.State)[str(ds.prefix) + rev(n)], "Domain").SalePrice) && big(deser(vVal(ds.State)[str(ds.prefix) + rev(n)], "Domain").SalePrice) == domPrice(ds)[n])
+
+//@ func (*DomainStore).IterateSubDomain
+//@   iterator                                             // C20.sub-scan
+//@   expands *DomainStore
+//@   requires ds != nil && ds.State != nil
+//@   assumes viewOK(ds)                                   // A-VIEW typed view of the State prefix (same trust as the assumed Get)
+//@   assumes !exhausted(ds.State.cache)                   // A-GAS reads during the scan are not stale (gas exhaustion: C09 D-09b)
+//@   modifies exhausted(ds.State.cache), exhausted(ds.State.txSession)
+//@   yields subOf(y0, parentName) && y0 != parentName && domHas(ds)[y0] && y1 != nil   // C20.sub-scan
+//@   yields y1.Owner == dom(ds)[y0].Owner && y1.Beneficiary == dom(ds)[y0].Beneficiary && y1.Name == y0 && dom(ds)[y0].Name == y0 && y1.CreationHeight == dom(ds)[y0].CreationHeight && y1.LastUpdateHeight == dom(ds)[y0].LastUpdateHeight && y1.ExpireHeight == dom(ds)[y0].ExpireHeight && y1.ActiveFlag == dom(ds)[y0].ActiveFlag && y1.OnSaleFlag == dom(ds)[y0].OnSaleFlag && y1.URI == dom(ds)[y0].URI   // C20.sub-scan
+//@   yields (y1.SalePrice == nil) == (dom(ds)[y0].SalePrice == nil) && (y1.SalePrice != nil ==> big(y1.SalePrice) == domPrice(ds)[y0])   // C20.sub-scan
+
+// Iterate (all records; used by queries and state export only, by nothing under contract): verified as a prefix scan that
+// stops early only when fn asks for it; nothing is claimed about the decoded records.
+//@ func (*DomainStore).Iterate
+//@   iterator                                             // C20.sub-scan
+//@   requires ds != nil && ds.State != nil
+//@   modifies exhausted(ds.State.cache), exhausted(ds.State.txSession)
+//@   yields y1 != nil   // C20.sub-scan
 
 //@ func (*DomainStore).DeleteAllSubdomains
 //@   expands *DomainStore
